@@ -27,6 +27,9 @@ pub enum Cond {
     /// neg=false: `tick k n` (true n times, then false); neg=true: `not tock k n` (tock: false n times, then true)
     Tick { neg: bool, key: String, n: u32 },
     Call { f: usize, args: Vec<Expr> },
+    /// `[not] cap cap:<id> <args>`: the harness capture command (answers true) in condition position; what it
+    /// receives is part of the trace
+    Probe { neg: bool, id: u32, args: Vec<String> },
 }
 
 #[derive(Clone, Debug, PartialEq, Eq, Hash)]
@@ -79,6 +82,8 @@ pub struct GenCfg {
     pub max_stmts: usize,
     /// while loops that run for tens to hundreds of iterations (the others run 0..3 times)
     pub long_loops: bool,
+    /// if / elseif conditions of command form whose command records the argument values it receives
+    pub probe_conditions: bool,
 }
 
 struct G<'a, 'b> {
@@ -115,10 +120,18 @@ impl<'a, 'b> G<'a, 'b> {
         }
     }
     fn plain_expr(&mut self) -> Expr {
-        // for condition-position call arguments: plain words only
-        Expr::Lit(self.t.pick(&["a", "b", "true", "0", "x1", "k"]).to_string())
+        // for condition-position call arguments: plain words, also padded with blanks or made of a blank only
+        // (values outside the C09 known classes: they reach the function unchanged)
+        Expr::Lit(self.t.pick(&["a", "b", "true", "0", "x1", "k", "x ", " y", " ", "p q", " 0", "no "]).to_string())
     }
     fn cond(&mut self, in_fn: Option<usize>, for_while: bool) -> Cond {
+        if !for_while && self.cfg.probe_conditions && self.t.chance(1, 8) {
+            let id = self.next_emit;
+            self.next_emit += 1;
+            let n = 1 + self.t.below(3);
+            let args = (0..n).map(|_| self.t.pick(&["a", "x ", " y", " ", "p q", " 0", "no ", "", "b", "  z  "]).to_string()).collect();
+            return Cond::Probe { neg: self.t.flip(), id, args };
+        }
         let w: [u32; 4] = if for_while { [0, 0, 6, if self.pred_fn.is_some() { 2 } else { 0 }] } else { [3, 3, 3, if self.cfg.functions && !self.fns.is_empty() { 2 } else { 0 }] };
         match self.t.weighted(&w) {
             0 => Cond::Value(self.expr(in_fn)),
@@ -488,6 +501,14 @@ impl<'a, 'b> Renderer<'a, 'b> {
                 .join(" "),
             Cond::Tick { neg: false, key, n } => format!("tick {} {}", key, n),
             Cond::Tick { neg: true, key, n } => format!("not tock {} {}", key, n),
+            Cond::Probe { neg, id, args } => {
+                let mut s = format!("{}cap cap:{}", if *neg { "not " } else { "" }, id);
+                for a in args {
+                    s.push(' ');
+                    s.push_str(&render_expr(&Expr::Lit(a.clone())));
+                }
+                s
+            }
             Cond::Call { f, args } => {
                 let mut s = fns[*f].name.clone();
                 for a in args {
@@ -841,6 +862,16 @@ impl<'p> Model<'p> {
             }
             Cond::Tick { neg: false, key, n } => Ok(crate::hz::tick_step(&mut self.ticks, key, *n)),
             Cond::Tick { neg: true, key, n } => Ok(!tock_step(&mut self.tocks, key, *n)),
+            Cond::Probe { neg, id, args } => {
+                self.classes.insert("command-form-condition-recording-its-arguments");
+                if args.iter().any(|a| a.starts_with(' ') || a.ends_with(' ')) {
+                    self.classes.insert("condition-command-argument-padded-with-blanks");
+                }
+                let mut v = vec![format!("cap:{}", id)];
+                v.extend(args.iter().cloned());
+                self.trace.push(Emitted { id: *id, args: v });
+                Ok(!*neg)
+            }
             Cond::Call { f, args } => {
                 self.classes.insert("call-in-condition-position");
                 let mut vals = vec![];
